@@ -7,7 +7,8 @@ import os
 import sys
 import traceback
 
-sys.path.insert(0, os.path.dirname(os.path.dirname(os.path.abspath(__file__))))
+ROOT = os.path.dirname(os.path.dirname(os.path.abspath(__file__)))
+sys.path.insert(0, ROOT)
 
 REGISTRY = {
     "C01": "matching",
@@ -64,7 +65,12 @@ def main():
             return mod.replay(ctx, a.replay)
         mod.run(ctx)
     except tlc.TlcError as ex:
-        print("MACHINERY-FAILURE %s: %s" % (a.pid, ex))
+        msg = str(ex).strip()
+        os.makedirs(os.path.join(ROOT, "out", a.pid), exist_ok=True)
+        with open(os.path.join(ROOT, "out", a.pid, "machinery_failure.txt"), "w") as f:
+            f.write(msg + "\n")
+        print(msg)
+        print("MACHINERY-FAILURE %s: %s" % (a.pid, " | ".join(msg.splitlines()[-3:])[:600]))
         return 2
     except Exception:
         traceback.print_exc()
